@@ -15,7 +15,7 @@ ID = "C12"
 LEVEL = "exploration"
 RULE = (
     "case = workflow of an outcome class (success, several tasks, terminal failure, failed-continue, skip by "
-    "stageEnabled / OR-split, cancel at a random step, jump loop, suspend + signal resume, synthetic stages, random DAG; "
+    "stageEnabled / OR-split, cancel at a random step of a succeeding or of a failing workflow, jump loop, suspend + signal resume, synthetic stages, random DAG; "
     "some with a second workflow interleaved in the same database) x (FIFO / shuffled delivery), event sourcing on, "
     "event store in the same file. Oracles: (a) rebuild_workflow_state() vs store.retrieve() for workflow, stages and "
     "tasks whose last durable change was a logged step; (b) for EVERY sequence number s of the log, rebuild(as_of=s) == "
@@ -33,7 +33,7 @@ ASSUMPTIONS = [
 MIN_OBS = {"prefix_rebuilds": {"quick": 2000, "thorough": 20000}, "snapshot_rebuilds": {"quick": 2000, "thorough": 20000}, "entities_compared": {"quick": 1000, "thorough": 10000}, "interleaved_runs": {"quick": 50, "thorough": 600}}
 TIMEOUT = {"quick": 600, "thorough": 3000}
 
-CLASSES = ["success", "multitask", "terminal", "fc", "skip", "orsplit", "cancel", "loop", "suspend", "synthetic", "random", "first_of"]
+CLASSES = ["success", "multitask", "terminal", "fc", "skip", "orsplit", "cancel", "loop", "suspend", "synthetic", "random", "first_of", "cancel_fail"]
 
 
 def _spec(cls: str, rng: random.Random) -> dict:
@@ -51,6 +51,9 @@ def _spec(cls: str, rng: random.Random) -> dict:
         return specs.or_split_variant(rng)
     if cls == "cancel":
         return rng.choice([specs.diamond(), specs.multitask(), specs.polling(2)])
+    if cls == "cancel_fail":
+        # a cancel racing a failure: the final status is decided by stage outcomes, not by the cancel flag
+        return rng.choice([specs.terminal_mid(), specs.racing_failure(), specs.failed_continue(), specs.first_of_failing(rng), specs.random_dag(rng, max_stages=5)])
     if cls == "loop":
         return rng.choice([specs.jump_loop(rng.randint(1, 2), 3), specs.self_loop(2), specs.jump_side_branch(1), specs.forward_jump()])
     if cls == "suspend":
@@ -136,7 +139,7 @@ def _race(case: dict) -> dict:
     from .. import interleave as il
 
     rng = random.Random(case["seed"] * 6007 + case["i"])
-    cls = case["cls"] if case["cls"] not in ("cancel", "suspend") else "random"
+    cls = case["cls"] if case["cls"] not in ("cancel", "suspend", "cancel_fail") else "random"
     spec = _spec(cls, rng)
     pol = il.RandomPolicy(rng.randrange(1 << 30), switch_p=rng.choice([0.1, 0.3, 0.5])) if case["i"] % 3 else il.PCT(rng.randrange(1 << 30), d=rng.choice([2, 3, 5]), horizon=rng.choice([400, 1500]))
     run, info = il.run_workers(spec, rng.choice([2, 3, 4]), pol, events=True, keep_world=True, watchdog=120.0)
@@ -188,7 +191,7 @@ def run_case(case: dict) -> dict:
     cls = case["cls"]
     spec = _spec(cls, rng)
     inj = []
-    if cls == "cancel":
+    if cls in ("cancel", "cancel_fail"):
         inj.append({"at": rng.randrange(1, 18), "do": "cancel"})
     if cls == "suspend":
         inj.append({"at": rng.randrange(0, 16), "do": "signal", "ref": "w", "persistent": True, "id": "sig"})
